@@ -118,7 +118,7 @@ def compare(A, B, target, model: Model, *, val_opts=None, timeout_ms=20000,
         mapB = {IR.idx_ir(b): IR.idx_ir(a) for a, b in zip(target, target_B)}
         T = sorted(tobjB)
     pairs, taus = [], []
-    n_undefined = 0
+    n_undefined = n_trivial = 0
     for n, tau in enumerate(model.assignments(T)):
         if max_assignments is not None and len(pairs) >= max_assignments:
             break
@@ -140,6 +140,9 @@ def compare(A, B, target, model: Model, *, val_opts=None, timeout_ms=20000,
         except Undefined:
             n_undefined += 1
             continue
+        if not a and not b:
+            n_trivial += 1          # both sides structurally zero at this assignment
+            continue
         pairs.append((len(taus), a, b))
         taus.append(tau)
         out.n_monomials += len(a) + len(b)
@@ -148,8 +151,10 @@ def compare(A, B, target, model: Model, *, val_opts=None, timeout_ms=20000,
     out.n_vars = len(vars_)
     if n_undefined:
         out.note += f"{n_undefined} assignments without value (pole) skipped; "
+    if n_trivial:
+        out.note += f"{n_trivial} assignments with both sides structurally zero; "
     if not pairs:
-        out.status = "skipped"
+        out.status = "equal" if n_trivial else "skipped"
         return out
     v = check_equal(pairs, vars_, timeout_ms=timeout_ms, seed=seed)
     out.queries += 1
@@ -326,8 +331,10 @@ def compare_ir(irA, irB, T, model, *, val_opts=None, timeout_ms=20000, seed=0, s
         out.n_monomials += len(pairs[-1][1]) + len(pairs[-1][2])
     out.encode_s = time.time() - t0
     out.n_assignments, out.n_vars = len(pairs), len(vars_)
+    if n_trivial:
+        out.note += f"{n_trivial} assignments with both sides structurally zero; "
     if not pairs:
-        out.status = "skipped"
+        out.status = "equal" if n_trivial else "skipped"
         return out
     v = check_equal(pairs, vars_, timeout_ms=timeout_ms, seed=seed)
     out.queries, out.solver_s, out.stage2 = 1, v.solver_s, int(v.stage == 2)
